@@ -182,6 +182,19 @@ def materialize(spec):
 def run_column(spec, out):
     col, vals, default, cmp = materialize(spec)
     n = spec["doccount"]
+    written = vals
+    if spec["kind"] == "refbytes":
+        # documented limit of RefBytesColumn: 65535 unique values per segment; further unique values are converted to
+        # the default value (with a warning)
+        seen = {default: 0}
+        vals = {}
+        for dn in sorted(written):
+            v = written[dn]
+            if v not in seen:
+                seen[v] = len(seen)
+            vals[dn] = v if seen[v] <= 65535 else default
+        if len(seen) > 65536:
+            out.label("refbytes_over_documented_unique_limit")
     with tempdir() as d:
         if spec["store"] == "ram":
             stg = RamStorage()
@@ -191,9 +204,12 @@ def run_column(spec, out):
         f.write(b"P" * spec["pad"])
         base = f.tell()
         w = col.writer(f)
-        for dn in sorted(vals):
-            w.add(dn, vals[dn])
-        w.finish(n)
+        import warnings
+        with warnings.catch_warnings():
+            warnings.simplefilter("ignore")
+            for dn in sorted(written):
+                w.add(dn, written[dn])
+            w.finish(n)
         length = f.tell() - base
         f.close()
         f = stg.open_file("col")
